@@ -13,7 +13,10 @@ META = {
             "(weight sum, accumulation, written value) from fornav_weights_and_sums_wrapper, write_grid_image_single and ewa.fornav is "
             "compared with the model fed with that cell's contribution list in scan order. combine: dask_ewa._combine_fornav / "
             "_average_fornav vs the model. axis: footprint interval under a sub-grid shift. dask: DaskEWAResampler.resample for all output "
-            "chunkings and scan-aligned input chunkings vs the one-shot ll2cr+fornav. Non-trivial: at least two contributions in some cell "
+            "chunkings and scan-aligned input chunkings vs the one-shot ll2cr+fornav. dask-mixed: the same with the data's row chunking drawn "
+            "independently of the geolocation's (uniform / irregular whole-scan chunks, one chunk, numpy on either side, column-split data, a bands "
+            "dimension, rows_per_scan from the keyword or lons.attrs); a difference that is exactly the omission of geolocation chunks without a pixel "
+            "within one cell of the grid is tagged cause=edge-chunk-dropped. Non-trivial: at least two contributions in some cell "
             "and at least one invalid pixel, or more than one chunk. Distinct = distinct canonical input.",
     "assumptions": ["the Gaussian weight of a pixel on a cell (ellipse parameters, exp table, float32) is a parameter: measured on the real kernel "
                     "with single-valid-pixel data; what is checked is that every result is the model's combination of those footprints",
@@ -495,6 +498,195 @@ def suite_dask(ctx):
                                      tags={"cause": "out-of-range"}, size=w * h)
 
 
+def _row_chunks(rng, srows, rps, kind):
+    """a scan-aligned row chunking of `srows` rows: every chunk is a whole number of scans"""
+    nscans = srows // rps
+    if kind == "one":
+        return (srows,)
+    if kind == "uniform":                           # k scans per chunk (the last chunk may be shorter, still whole scans)
+        k = rng.randint(1, max(1, nscans - 1))
+        return tuple(min(k * rps, srows - r) for r in range(0, srows, k * rps))
+    parts, left = [], nscans                        # irregular: unequal whole-scan chunks
+    while left:
+        k = min(left, rng.choice([1, 1, 2, 3, 5]))
+        parts.append(k * rps)
+        left -= k
+    return tuple(parts)
+
+
+def suite_dask_mixed(ctx):
+    """DaskEWAResampler when the data array is chunked differently from the swath's longitude / latitude arrays (all chunkings scan
+    aligned), is a plain numpy array next to dask-backed geolocation (or the reverse), is split along the columns, or carries a 'bands'
+    dimension: the grid must be the one-shot ll2cr + fornav grid of the same pixels."""
+    import dask
+    import dask.array as da
+    import xarray as xr
+
+    from pyresample.ewa import DaskEWAResampler, fornav, ll2cr
+    from pyresample.geometry import AreaDefinition, SwathDefinition
+    rng = ctx.rng
+    site = "ewa.DaskEWAResampler.resample"
+    laea = {"proj": "laea", "lat_0": 52, "lon_0": 10, "ellps": "WGS84"}
+    ll = {"proj": "longlat", "ellps": "WGS84"}
+    lcc = {"proj": "lcc", "lat_0": 25, "lat_1": 25, "lon_0": -95, "datum": "WGS84"}
+    areas = [("laea", laea, 23, 19, (-230000, -190000, 230000, 190000)), ("longlat", ll, 17, 21, (2.0, 44.0, 19.0, 58.0)),
+             ("lcc", lcc, 20, 26, (-150000, -200000, 150000, 200000)), ("laea-flip-y", laea, 16, 14, (-160000, 140000, 160000, -140000))]
+    n = 4 if ctx.quick else 16
+    for it in range(n):
+        name, proj, w, h, ext = areas[it % len(areas)]
+        with warnings.catch_warnings():
+            warnings.simplefilter("ignore")
+            area = AreaDefinition(name, name, name, proj, w, h, ext)
+        rps = rng.choice([2, 4, 5, 10])
+        nscans = rng.choice([4, 6, 8, 9])
+        srows, scols = rps * nscans, rng.randint(14, 30)
+        lons, lats = _swath_for(rng, area, srows, scols, rng.uniform(-0.2, 0.2))
+        lons, lats = np.ascontiguousarray(lons), np.ascontiguousarray(lats)
+        dtype = rng.choice([np.float32, np.float64])
+        ii, jj = np.meshgrid(np.arange(srows), np.arange(scols), indexing="ij")
+        # every scan line has its own level: pixels combined with the locations of another part of the swath are clearly visible
+        data = (5.0 * ii + 2 * np.cos(jj * 0.4)).astype(dtype)
+        bad = np.array([[rng.random() < 0.06 for _ in range(scols)] for _ in range(srows)])
+        data[bad] = np.nan
+        data = np.ascontiguousarray(data)
+        vdat = data[~bad]
+        vmin, vmax = float(vdat.min()), float(vdat.max())
+        kw = {"weight_delta_max": rng.choice([10.0, 3.0]), "weight_distance_max": rng.choice([1.0, 1.4])}
+        refs = {}
+        for mwm in (False, True):
+            with warnings.catch_warnings():
+                warnings.simplefilter("ignore")
+                _, cols, rows = ll2cr(SwathDefinition(lons.copy(), lats.copy()), area)
+                try:
+                    _, ref = fornav(cols, rows, area, data.copy(), rows_per_scan=rps, maximum_weight_mode=mwm, **kw)
+                except RuntimeError:
+                    continue
+            refs[mwm] = np.asarray(ref, float)
+        n_layouts = 4 if ctx.quick else 8
+        for li in range(n_layouts):
+            mwm = bool(li % 2)
+            if mwm not in refs:
+                continue
+            ref = refs[mwm]
+            geo_kind = rng.choice(["uniform", "uniform", "irregular", "one", "numpy"])
+            data_kind = rng.choice(["uniform", "uniform", "irregular", "one", "numpy", "colsplit", "bands"])
+            if geo_kind == "numpy" and data_kind == "numpy":
+                data_kind = "uniform"
+            gch = None if geo_kind == "numpy" else _row_chunks(rng, srows, rps, geo_kind)
+            if data_kind == "numpy":
+                dch = None
+            else:
+                dch = _row_chunks(rng, srows, rps, data_kind if data_kind in ("uniform", "irregular", "one") else "uniform")
+                if li < 2 and gch is not None and dch == gch:
+                    # make sure that every geometry sees a data chunking that differs from the geolocation's
+                    dch = _row_chunks(rng, srows, rps, "irregular" if len(gch) == 1 or len(set(gch)) == 1 else "one")
+            cch = (scols,)
+            if data_kind == "colsplit":
+                c0 = rng.randint(1, scols - 1)
+                cch = (c0, scols - c0)
+            rps_from = rng.choice(["keyword", "lons.attrs"]) if gch is not None else "keyword"
+            outc = rng.choice([(h, w), (5, 7), ((1, h - 1), (w - 2, 2)), (4, 3)])
+            inp = {"area": {"proj": proj, "width": w, "height": h, "extent": list(ext)}, "swath": [srows, scols], "rows_per_scan": rps,
+                   "dtype": np.dtype(dtype).name, "mode": "max" if mwm else "avg", "kwargs": kw, "lons_checksum": float(lons.sum()),
+                   "nan_pixels": int(bad.sum()), "geolocation_row_chunks": "numpy" if gch is None else list(gch),
+                   "data_row_chunks": "numpy" if dch is None else list(dch), "data_col_chunks": list(cch), "data_kind": data_kind,
+                   "rows_per_scan_from": rps_from, "output_chunks": str(outc)}
+            differs = (gch is None) != (dch is None) or (gch is not None and tuple(gch) != tuple(dch)) or len(cch) > 1
+            ctx.case("dask-mixed", (name, lons.tobytes(), data.tobytes(), mwm, str(gch), str(dch), str(cch), data_kind, str(outc), str(kw)),
+                     nontrivial=differs, sample={"area": name, "geo": inp["geolocation_row_chunks"], "data": inp["data_row_chunks"], "mode": inp["mode"]})
+            ctx.count(f"dask_mixed.geo.{geo_kind}")
+            ctx.count(f"dask_mixed.data.{data_kind}")
+            ctx.count("dask_mixed.chunkings_differ" if differs else "dask_mixed.chunkings_same")
+            try:
+                with warnings.catch_warnings(), dask.config.set(scheduler="synchronous"):
+                    warnings.simplefilter("ignore")
+                    if gch is None:
+                        sw = SwathDefinition(lons.copy(), lats.copy())
+                    else:
+                        attrs = {"rows_per_scan": rps} if rps_from == "lons.attrs" else {}
+                        sw = SwathDefinition(xr.DataArray(da.from_array(lons, chunks=(gch, (scols,))), dims=("y", "x"), attrs=attrs),
+                                             xr.DataArray(da.from_array(lats, chunks=(gch, (scols,))), dims=("y", "x")))
+                    rs = DaskEWAResampler(sw, area)
+                    if data_kind == "bands":
+                        # two bands: the field and its mirror image (same NaN pixels), each with its own one-shot reference
+                        stack = np.ascontiguousarray(np.stack([data, (vmin + vmax) - data]).astype(dtype))
+                        _, ref_b = fornav(cols, rows, area, stack[1].copy(), rows_per_scan=rps, maximum_weight_mode=mwm, **kw)
+                        ref_b = np.asarray(ref_b, float)
+                        xd = xr.DataArray(da.from_array(stack, chunks=((1, 1), dch, cch)), dims=("bands", "y", "x"), coords={"bands": ["a", "b"]})
+                    elif dch is None:
+                        xd = data.copy()
+                    else:
+                        xd = xr.DataArray(da.from_array(data, chunks=(dch, cch)), dims=("y", "x"))
+                    rkw = {} if rps_from == "lons.attrs" else {"rows_per_scan": rps}
+                    res = rs.resample(xd, chunks=outc, maximum_weight_mode=mwm, **rkw, **kw)
+                    got_all = np.asarray(res.values if hasattr(res, "values") else res, float)
+            except Exception as e:  # noqa
+                ctx.fail(site, f"raised {type(e).__name__}: {str(e)[:200]} (geolocation row chunks {inp['geolocation_row_chunks']}, data row chunks "
+                         f"{inp['data_row_chunks']}); one-shot ll2cr+fornav resamples the same pixels", inp, None, tags={"cause": "exception", "mode": inp["mode"]}, size=w * h)
+                continue
+            def dropped_chunks_explain(got, band_data, tol):
+                """Attribution only (the verdict is already 'differs from one-shot'): is the dask grid the one-shot grid of the swath WITHOUT the
+                geolocation chunks that have no pixel within one cell of the grid (ll2cr count 0)?  The dask path skips such chunks although
+                the footprints of their pixels can still reach the cells at the edge of the grid."""
+                g = srows if gch is None else gch[0]
+                c2, r2, dropped = np.array(cols, copy=True), np.array(rows, copy=True), []
+                for r0 in range(0, srows, g):
+                    with warnings.catch_warnings():
+                        warnings.simplefilter("ignore")
+                        n_in = ll2cr(SwathDefinition(lons[r0:r0 + g].copy(), lats[r0:r0 + g].copy()), area)[0]
+                    if n_in == 0:
+                        c2[r0:r0 + g] = np.nan
+                        r2[r0:r0 + g] = np.nan
+                        dropped.append([r0, min(r0 + g, srows)])
+                if not dropped:
+                    return None
+                try:
+                    with warnings.catch_warnings():
+                        warnings.simplefilter("ignore")
+                        _, alt = fornav(c2, r2, area, band_data.copy(), rows_per_scan=rps, maximum_weight_mode=mwm, **kw)
+                except RuntimeError:
+                    return None
+                alt = np.asarray(alt, float)
+                if alt.shape != got.shape or (np.isnan(alt) != np.isnan(got)).any():
+                    return None
+                ok = ~np.isnan(alt)
+                t = tol if np.isscalar(tol) else 2e-4 * (1 + np.abs(np.where(ok, alt, 0)))
+                return dropped if not (ok & (np.abs(np.where(ok, got - alt, 0)) > t)).any() else None
+
+            pairs = [("", got_all, ref, data)] if data_kind != "bands" else \
+                [(" (band a)", got_all[0], ref, data), (" (band b)", got_all[1] if got_all.ndim == 3 and got_all.shape[0] == 2 else got_all, ref_b, stack[1])]
+            for tag, got, want, band_data in pairs:
+                if got.shape != want.shape:
+                    ctx.fail(site, f"result shape {got_all.shape}, one-shot {ref.shape}{tag}", inp, None, tags={"cause": "shape"}, size=w * h)
+                    break
+                pat = np.isnan(got) != np.isnan(want)
+                if pat.any():
+                    idx = tuple(map(int, np.argwhere(pat)[0]))
+                    dropped = dropped_chunks_explain(got, band_data, 0.0 if mwm else None)
+                    ctx.fail(site, f"grid cell {idx}{tag}: dask result {'fill' if np.isnan(got[idx]) else got[idx]} but one-shot ll2cr+fornav gives "
+                             f"{'fill' if np.isnan(want[idx]) else want[idx]} ({int(pat.sum())} cells)"
+                             + (f"; the dask grid is the one-shot grid without the swath rows {dropped}: chunks with no pixel within one cell of the grid are skipped, "
+                                "their footprints reach it" if dropped else ""), {**inp, "skipped_rows": dropped}, {"n": int(pat.sum())},
+                             tags={"cause": "edge-chunk-dropped" if dropped else "pattern", "mode": inp["mode"]}, size=w * h)
+                    break
+                both = ~np.isnan(want)
+                tol = 0.0 if mwm else 2e-4 * (1 + np.abs(np.where(both, want, 0)))     # maximum-weight mode copies input values: exact
+                dif = both & (np.abs(np.where(both, got - want, 0)) > tol)
+                if dif.any():
+                    idx = tuple(map(int, np.argwhere(dif)[0]))
+                    dropped = dropped_chunks_explain(got, band_data, 0.0 if mwm else None)
+                    ctx.fail(site, f"grid cell {idx}{tag}: dask {got[idx]} vs one-shot {want[idx]} ({int(dif.sum())} cells differ; geolocation row chunks "
+                             f"{inp['geolocation_row_chunks']}, data row chunks {inp['data_row_chunks']})"
+                             + (f"; the dask grid is the one-shot grid without the swath rows {dropped}: chunks with no pixel within one cell of the grid are skipped, "
+                                "their footprints reach it" if dropped else ""), {**inp, "skipped_rows": dropped}, {"n": int(dif.sum())},
+                             tags={"cause": "edge-chunk-dropped" if dropped else "values", "mode": inp["mode"]}, size=w * h)
+                    break
+                if both.any() and (np.nanmin(got) < vmin - 1e-3 * (1 + abs(vmin)) or np.nanmax(got) > vmax + 1e-3 * (1 + abs(vmax))):
+                    ctx.fail(site, f"values [{np.nanmin(got)}, {np.nanmax(got)}]{tag} leave the input range [{vmin}, {vmax}]", inp, None,
+                             tags={"cause": "out-of-range"}, size=w * h)
+                    break
+
+
 def run(ctx):
     import traceback
     try:
@@ -502,7 +694,7 @@ def run(ctx):
         ctx.note(ewa_build.install_fornav())
     except Exception as e:  # noqa
         ctx.note(f"could not rebuild _fornav ({type(e).__name__}: {e}); using the in-tree module")
-    for suite in (suite_ll2cr, suite_cells, suite_combine, suite_dask):
+    for suite in (suite_ll2cr, suite_cells, suite_combine, suite_dask, suite_dask_mixed):
         try:
             suite(ctx)
         except Exception as e:  # noqa
